@@ -62,6 +62,13 @@ static std::string gen_payload(int type, long long len, uint64_t seed)
 			r[i] = (char)c;
 		}
 	}
+	if (type != 0 && !r.empty()) { // 0x00 is an ordinary payload byte: first, last, middle (3 of 4 seeds; the rest is random)
+		switch (seed & 3) {
+		case 0: r[0] = 0; break;
+		case 1: r[r.size() - 1] = 0; break;
+		case 2: r[r.size() / 2] = 0; break;
+		}
+	}
 	return r;
 }
 
@@ -111,11 +118,13 @@ static bool msg_check(const WebSocketMsg& m, std::string& why)
 			why = vf::str("strlen(*msg) is ", sl, " for a NUL-free message of ", n, " bytes");
 			return false;
 		}
-		String str = m;
-		if (str.length() != n || memcmp(*str, p, (size_t)n) != 0) {
-			why = vf::str("String(msg) has length ", str.length(), " / other bytes than the ", n, "-byte message");
-			return false;
-		}
+	}
+	// String(msg) (`String msg = ws.receive();`, the documented form) is built from the byte array: full length, embedded
+	// 0x00 bytes kept (0x00 is valid in text and binary payloads)
+	String str = m;
+	if (str.length() != n || (n > 0 && memcmp(*str, b.data(), (size_t)n) != 0)) {
+		why = vf::str("String(msg) has length ", str.length(), " / other bytes than the ", n, "-byte message", nulfree ? "" : " (payload contains 0x00 bytes)");
+		return false;
 	}
 	return true;
 }
@@ -843,6 +852,7 @@ struct InPlan {
 	std::vector<std::pair<size_t, long>> gaps; // (stream offset, ms): the peer pauses there
 	std::string close_reason;                  // end kind 3: close frame with status code and this reason text
 	int gap_between_fragments = 0, gap_between_messages = 0, gap_inside_frame = 0;
+	int text_with_nul = 0, binary_with_nul = 0;
 };
 
 // ops:  role isclient chunk
@@ -884,9 +894,11 @@ static InPlan build_in(const vf::Case& c)
 		else if (o.name == "cut")
 			p.cut = o.i(0) < 0 ? -o.i(0) : o.i(0);
 		else if (o.name == "msg") {
-			int type = (int)(o.i(0) & 1);
+			int type = (int)(o.i(0) & 1); // opcode: 0 text, 1 binary; type 2 = text whose payload contains 0x00 bytes, 3 = binary
 			long long len = clamp_len(o.i(1), MAX_LEN);
-			std::string pl = gen_payload(type, len, (uint64_t)o.i(2));
+			std::string pl = gen_payload((o.i(0) & 3) == 0 ? 0 : 1, len, (uint64_t)o.i(2));
+			if (memchr(pl.data(), 0, pl.size()))
+				(type ? p.binary_with_nul : p.text_with_nul)++;
 			bool masked = (o.i(3) & 1) != 0;
 			int nfrag = (int)(((o.i(5, 1) - 1) % 4 + 4) % 4) + 1;
 			std::vector<long long> cuts;
@@ -1643,7 +1655,7 @@ static rc::Gen<long long> gen_split()
 static rc::Gen<vf::Op> gen_msg_op(int maxlen)
 {
 	using namespace rc;
-	return gen::map(gen::tuple(vf::irange<int>(0, 1), gen_len(maxlen), vf::irange<int>(0, 1 << 30), vf::irange<int>(0, 1), gen_key(),
+	return gen::map(gen::tuple(vf::irange<int>(0, 3), gen_len(maxlen), vf::irange<int>(0, 1 << 30), vf::irange<int>(0, 1), gen_key(),
 	                           gen::weightedElement<int>({{4, 1}, {3, 2}, {2, 3}, {2, 4}}), gen_split(), gen_split(), gen_split(), vf::irange<int>(0, 80)),
 	                [](const std::tuple<int, int, int, int, long long, int, long long, long long, long long, int>& t) {
 		                vf::Op o("msg");
@@ -1699,6 +1711,8 @@ static void classify_in(const vf::Case& c)
 	st.cls("in.frames_key_with_zero_byte", (uint64_t)p.zero_key_byte);
 	if (p.chunk > 0)
 		st.cls("in.delivered_in_chunks");
+	st.cls("in.text_messages_with_0x00", (uint64_t)p.text_with_nul);
+	st.cls("in.binary_messages_with_0x00", (uint64_t)p.binary_with_nul);
 	if (!p.close_reason.empty())
 		st.cls("in.close_frame_with_reason_text");
 	st.cls("in.pause>5s_between_fragments", (uint64_t)p.gap_between_fragments);
